@@ -1,4 +1,5 @@
 import McpModel.CmdTransport.Model
+import McpModel.Generated.CmdTransportGen
 /-!
 C05, stdio side: theorems about the termination protocol of `pipeRWC.Close`, for ALL environments
 (every child behaviour, every timing, every scheduling lag).
@@ -368,6 +369,36 @@ theorem deaf_child_is_killed (e : Env) (hs : e.stdinFails = false) (h1 : e.self 
   rw [hrun, t6, k6]
   refine ⟨rfl, by congr 1; omega, ?_⟩
   simp [exitTime, h1, h2, h3, minO, termExit, killExit]; omega
+
+/-! ### the tie to mcp/cmd.go: regenerated statement order and constants -/
+
+/-- The statements of pipeRWC.Close that one label of the model stands for. -/
+def pcLabels : PC → List String
+  | .start => ["closeStdin", "spawnWait"]
+  | .wait1 => ["wait"]
+  | .sigTerm => ["sigterm"]
+  | .wait2 => ["wait"]
+  | .sigKill => ["kill"]
+  | .wait3 => ["wait", "unresponsive"]
+  | .done => []
+
+/-- The statement order of pipeRWC.Close, REGENERATED from /repo, is the label sequence of the model's
+longest run (a child that ignores everything). -/
+theorem generated_shape :
+    Generated.CmdTransport.closeLabels = (trace { td := 1 }).flatMap pcLabels := by decide
+
+/-- The two error paths of the signalling statements are the model's: a failed SIGTERM skips the second
+wait (`sigTerm → sigKill`), a failed Kill returns its error (`sigKill → done` with `procDone`). -/
+theorem generated_error_paths (e : Env) (s : St) (hr : reapedB e s.termAt s.killAt s.now = true) :
+    Generated.CmdTransport.termErrorSkipsWait = true ∧ Generated.CmdTransport.killErrorReturns = true ∧
+    (s.pc = .sigTerm → (step e s).pc = .sigKill ∧ (step e s).termAt = s.termAt) ∧
+    (s.pc = .sigKill → (step e s).pc = .done ∧ (step e s).res = some .procDone ∧ (step e s).killAt = s.killAt) := by
+  refine ⟨by decide, by decide, ?_, ?_⟩
+  · intro h; simp [step, h, hr]
+  · intro h; simp [step, h, hr]
+
+/-- The default TerminateDuration (regenerated) is positive: the theorems with `0 < e.td` apply to it. -/
+theorem default_td_pos : 0 < Generated.CmdTransport.defaultTerminateNanos := by decide
 
 /-! ### non-vacuity -/
 
